@@ -189,6 +189,14 @@ Theorem C13_rt_finished_task_is_released : forall cid s t H,
   Rt.tf_alive (Rt.gtf (Rt.t_uid t) (Rt.finish_task cid s t H)) = false /\
   Rt.tf_fin (Rt.gtf (Rt.t_uid t) (Rt.finish_task cid s t H)) = true.
 Proof. exact TaskRelease.finish_task_releases. Qed.
+(* ... and a finished top-level command is released by the executor: its task slot is freed and the Command dropped *)
+From Crux Require Rt.Host Rt.CoreOrd.
+Theorem C13_rt_finished_command_is_released_by_the_executor : forall FUEL f q k cid H1,
+  Host.xget q (Host.k_slab k) = Some cid -> Rt.poll_next FUEL cid (Rt.WExec q) (Host.k_H k) = Some (Rt.PNDone, H1) ->
+  cid < length (Rt.cmds H1) ->
+  exists k', Host.xrun_task FUEL (S f) q k = Some k' /\ Host.xget q (Host.k_slab k') = None /\
+             Rt.c_alive (Rt.gcmd cid (Host.k_H k')) = false.
+Proof. exact CoreOrd.xrun_task_done_releases. Qed.
 Theorem C13_rt_released_stays_released : forall fuel cid H H',
   Rt.settle fuel cid H = Some H' ->
   (forall c, c < length (Rt.cmds H) -> Rt.c_alive (Rt.gcmd c H) = false -> Rt.c_alive (Rt.gcmd c H') = false) /\
